@@ -225,7 +225,11 @@ def write_file(case, d):
         x["pid"] = case.get("pid", 0)
         evs.append(x)
     with open(p, "w") as fh:
-        json.dump(evs, fh)
+        # the same events may come in torch-profiler style (an object with deviceProperties: the TORCH dialect)
+        if case.get("torch_form"):
+            json.dump({"deviceProperties": [{"id": 0, "name": "AIU", "type": "aiu"}], "traceEvents": evs}, fh)
+        else:
+            json.dump(evs, fh)
     return p
 
 
@@ -684,7 +688,50 @@ def gen_e2e(r, pair=True):
     case = {"kind": "pair" if pair else "e2e", "freq": f, "k": k, "pid": r.choice([0, 0, 1, 5]), "events": evs,
             "opts": r.choice([[], ["--keep_prep"], ["--keep_prep", "-M"], ["-t"], ["--keep_prep", "--keep_names"],
                               ["--disable_tb", "--keep_prep"], ["--drop_globals", "--keep_prep"], ["--drop_globals"]])}
+    if "--keep_prep" in case["opts"] and r.random() < 0.3:
+        case["torch_form"] = True       # prep slices are only removed for FLEX input: object form with --keep_prep only
     return case
+
+
+def multi_rank_durations(ctx, n):
+    """the duration clause in MULTI-rank traces (clock alignment active): shared scenario generator + chain all-reduce
+    groups, Acelyzer end to end, every exported device slice must have dur = (TSb - TSa)/f of its phase (exact: power-of-two
+    frequencies, times on the grid).  Oracle only."""
+    from fractions import Fraction
+    from common import scenario, collectives, e2e as e2e_drv
+    import random
+    r = random.Random(ctx.seed * 7919 + 6)
+    fails, checked = [], 0
+    work = tempfile.mkdtemp(prefix="c06m_", dir=ctx.work)
+    try:
+        for k in range(n):
+            s = scenario.gen_scenario(r, ranks=r.choice([2, 3, 4]), zero_dur=False)
+            collectives.add_chain_allreduce(r, s, n_groups=r.choice([1, 2]))
+            inp = scenario.write(s, os.path.join(work, f"m{k}", "in"))
+            out = os.path.join(work, f"m{k}", "o.json")
+            opts = r.choice([[], ["--keep_prep"], ["--flow"]])
+            res = e2e_drv.run_inproc(["-i", inp, "-o", out, "--freq", f"{s.freq}:1100.0", "-D", "0"] + opts, out)
+            if not res.ok() or res.events is None:
+                continue            # exit codes are C02's business
+            pair = {"DmaI": (0, 1), "Cmpt Prep": (1, 2), "Cmpt Exec": (2, 3), "DmaO": (3, 4), "other": (0, 4)}
+            for x in res.events:
+                u = e2e_drv.uid_of(x)
+                t = s.truth.get(u)
+                if x.get("ph") != "X" or t is None or not t.get("device") or "true_ts" not in t:
+                    continue
+                ph = next((q for q in ("DmaI", "Cmpt Prep", "Cmpt Exec", "DmaO") if t["name"].endswith(" " + q)), "other")
+                a, b = pair[ph]
+                want = Fraction(t["true_ts"][b] - t["true_ts"][a]) / Fraction(int(s.freq))
+                checked += 1
+                if Fraction(x["dur"]) != want and len(fails) < 3:
+                    fails.append({"input": {"kind": "multi_rank", "freq": s.freq, "files": s.files, "opts": opts},
+                                  "expected": {"uid": u, "name": t["name"], "dur": float(want)},
+                                  "observed": {"dur": x["dur"], "ts": x["ts"]},
+                                  "signature": {"kind": "duration_not_cycle_delta_over_freq", "where": "multi_rank_e2e",
+                                                "phase": ph, "ranks": s.ranks}})
+    finally:
+        shutil.rmtree(work, ignore_errors=True)
+    return fails, checked
 
 
 def names_tie(r, n):
@@ -839,6 +886,9 @@ def run(ctx):
             uniq.append(f)
     uniq.sort(key=lambda f: 0 if f["input"].get("kind", "stage") == "stage" else 1)
     oracle_failures = confirm([shrink(f) for f in uniq[:3]], stage_cases, ctx)
+    mr_fails, mr_checked = multi_rank_durations(ctx, ctx.pick(14, 150))
+    oracle_failures += mr_fails[:1]
+    dist["multi_rank_device_slices_checked"] = mr_checked
 
     return {
         "evaluations": len(terms) + len(off_cases) + len(names) + len(eterms),
